@@ -1018,6 +1018,9 @@ func (db *DB) truncateDatabase(f *os.File, pageN uint32) (err error) {
 		TraceLog.Printf("[TruncateDatabase(%s)]: pageN=%d prevPageN=%d pageSize=%d %s", db.name, pageN, prevPageN, db.pageSize, errorKeyValue(err))
 	}()
 
+	if err := verifPageOp(db, "truncate", pageN); err != nil {
+		return err
+	}
 	if err := f.Truncate(int64(pageN) * int64(db.pageSize)); err != nil {
 		return err
 	} else if err := f.Sync(); err != nil {
@@ -1118,6 +1121,9 @@ func (db *DB) writeDatabasePage(f *os.File, pgno uint32, data []byte, invalidate
 	assert(db.pageSize != 0, "page size required")
 	if len(data) != int(db.pageSize) {
 		return fmt.Errorf("database write (%d bytes) must be a single page (%d bytes)", len(data), db.pageSize)
+	}
+	if err := verifPageOp(db, "write", pgno); err != nil {
+		return err
 	}
 
 	// Issue write to database.
